@@ -15,7 +15,7 @@ if have:
     commits = git("log", "--reverse", "--format=%H", "main.." + branch).split()
     for c in commits:
         subj = git("log", "-1", "--format=%s", c).strip()
-        if not subj.startswith("fix:"):
+        if not (subj.startswith("fix:") or subj.startswith("verif hook:")):
             print("skipping non-fix commit", c[:8], subj); continue
         r = subprocess.run(["git", "-C", "/repo", "cherry-pick", c], capture_output=True, text=True)
         if r.returncode != 0:
